@@ -199,6 +199,11 @@ fn main() {
             return;
         }
         "judge-relay" => legs::relay::judge(&args.str("prop", "C03"), &args.str("cases", ""), &args.str("events", "")),
+        "dump-corpus" => {
+            legs::c05::dump_corpus(&args.str("handler", "dhcp"), seed, args.u64("n", 1000), &args.str("out", "/dev/stdout"));
+            return;
+        }
+        "judge-frames" => legs::framejudge::judge(&args.str("events", "")),
         "consts" => {
             println!("{}", legs::dnsmisc::consts());
             return;
